@@ -13,6 +13,7 @@ package c16
 import (
 	"encoding/json"
 	"fmt"
+	"runtime"
 	"sort"
 	"strings"
 	"sync"
@@ -220,6 +221,8 @@ type fixture struct {
 	obs     *observer
 	timeout time.Duration
 	period  time.Duration
+	base    int  // goroutines before the fixture existed
+	leaked  bool // an oracle saw a stream that cannot be stopped: do not wait for it
 }
 
 func peerTree() []world.EntSpec {
@@ -231,14 +234,17 @@ func peerTree() []world.EntSpec {
 // newFixture builds a local entity [1] with a DeviceDiagnosis server feature and npeers peers
 // whose DeviceDiagnosis client feature subscribed to it. With lateAdd the heartbeat function is
 // not added yet (fx.addFunction does it), otherwise the heartbeat is already running on return.
-func newFixture(timeout time.Duration, npeers int, lateAdd bool, sampler bool) *fixture {
-	fx := &fixture{w: world.New(), timeout: timeout, period: periodOf(timeout)}
+func newFixture(t world.TB, timeout time.Duration, npeers int, lateAdd bool, sampler bool) *fixture {
+	fx := &fixture{base: runtime.NumGoroutine(), w: world.New(), timeout: timeout, period: periodOf(timeout)}
 	fx.ent = fx.w.AddLocalEntity([]uint{1}, model.EntityTypeTypeCEM, timeout)
 	spec := world.FeatSpec{Type: model.FeatureTypeTypeDeviceDiagnosis, Role: model.RoleTypeServer}
 	if !lateAdd {
 		spec.Funcs = []world.FuncSpec{{Fn: fnHeartbeat, Read: true}}
 	}
-	fx.feat = fx.w.AddLocalFeature(fx.ent, spec)
+	// adding the heartbeat function starts the heartbeat
+	if p := guarded(func() { fx.feat = fx.w.AddLocalFeature(fx.ent, spec) }); p != "" {
+		world.Fail(t, "C16/sequential/"+panicShape(p)+"/add", "AddFunctionType(deviceDiagnosisHeartbeatData) on a fresh DeviceDiagnosis server feature panicked: %s", p)
+	}
 	fx.hm = fx.ent.HeartbeatManager()
 	fx.obs = &observer{notifs: make([][]seen, npeers), wake: make(chan struct{}, 1), stop: make(chan struct{}), done: make(chan struct{})}
 	for i := 0; i < npeers; i++ {
@@ -250,6 +256,7 @@ func newFixture(timeout time.Duration, npeers int, lateAdd bool, sampler bool) *
 		}
 		fx.peers = append(fx.peers, p)
 	}
+	fx.obs.sample(fx.feat) // what the data shows before the observation starts
 	if sampler {
 		go fx.obs.runSampler(fx.feat)
 	} else {
@@ -275,7 +282,11 @@ func (fx *fixture) close() {
 	for _, p := range fx.peers {
 		p.Cap.SetOnWrite(nil)
 	}
-	fx.w.Teardown()
+	// like World.Teardown, but a stream that cannot be stopped (which the oracles report) must not
+	// cost seconds per case
+	if !fx.leaked {
+		world.WaitGoroutines(fx.base, 250*time.Millisecond)
+	}
 }
 
 // guarded runs one call of the stack and returns the recovered panic text ("" if none).
@@ -349,7 +360,8 @@ var timeoutsCommon = []time.Duration{100 * time.Millisecond, 200 * time.Millisec
 var timeoutsLong = []time.Duration{2100 * time.Millisecond, 2300 * time.Millisecond}
 
 func drawOps(t *rapid.T) []op {
-	kinds := []string{"start", "start", "start", "stop", "stop", "stop", "running", "running", "wait", "wait", "wait", "wait", "remove"}
+	// (rapid favours the front of the list)
+	kinds := []string{"wait", "start", "stop", "wait", "start", "stop", "running", "wait", "remove", "start", "stop", "running"}
 	raw := rapid.SliceOfN(rapid.Custom(func(t *rapid.T) op {
 		o := op{Kind: rapid.SampledFrom(kinds).Draw(t, "kind")}
 		if o.Kind == "wait" {
@@ -387,7 +399,7 @@ func TestHeartbeatHistories(t *testing.T) {
 
 // runHistory executes one history and judges it. Also used by the regression tests.
 func runHistory(t world.TB, timeout time.Duration, npeers int, lateAdd bool, ops []op) {
-	fx := newFixture(timeout, npeers, lateAdd, true)
+	fx := newFixture(t, timeout, npeers, lateAdd, true)
 	defer fx.close()
 	period := fx.period
 
@@ -512,6 +524,7 @@ func runHistory(t world.TB, timeout time.Duration, npeers int, lateAdd bool, ops
 	fx.obs.mu.Lock()
 	over := fx.obs.maxOver
 	fx.obs.mu.Unlock()
+	labels = append(labels, overBucket(over))
 	if over > descheduleLimit {
 		// the harness itself did not get the CPU: nothing about timing can be concluded
 		world.Record(0, false, append(labels, "discarded/harness-descheduled")...)
@@ -523,6 +536,15 @@ func runHistory(t world.TB, timeout time.Duration, npeers int, lateAdd bool, ops
 	}
 
 	judgeHistory(t, fx, baseline, marks, end, history)
+}
+
+func overBucket(over time.Duration) string {
+	for _, b := range []time.Duration{5, 10, 20, 50, 100, 200} {
+		if over <= b*time.Millisecond {
+			return fmt.Sprintf("harness-oversleep/<=%dms", b)
+		}
+	}
+	return "harness-oversleep/>200ms"
 }
 
 // judgeHistory evaluates the invariant of DESIGN §4 C16 over everything that was observed.
